@@ -20,7 +20,8 @@ TICKS = (1e-6, 1e-5, 1e-4, 1e-3, 1e-2)
 # scenario generation
 
 def gen_scenario(rng, *, family='well', cyclic=False, init_env=False,
-                 max_tasks=9):
+                 max_tasks=9, init_statuses=('DONE', 'DONE', 'FAILED',
+                                             'SKIPPED')):
     '''Draw one scheduler scenario.
 
     family: 'well' (ok/raise/FAILED), 'malformed' (adds malformed returns),
@@ -102,8 +103,7 @@ def gen_scenario(rng, *, family='well', cyclic=False, init_env=False,
     if init_env:
         for i in range(ntask):
             if rng.random() < 0.4:
-                ent = {'status': rng.choice(('DONE', 'DONE', 'FAILED',
-                                             'SKIPPED'))}
+                ent = {'status': rng.choice(init_statuses)}
                 if rng.random() < 0.6:
                     start = 1000.0 + rng.randrange(100)
                     ent['start_clock'] = start
@@ -561,7 +561,9 @@ def oracle_c01(scn, res):
                               'dep_exec': [(d['enter_step'], d['exit_step'])
                                            for d in running]}))
                 continue
-            if stat == 'DONE' and miss:
+            if stat == 'DONE' and miss and dep_execs:
+                # (a dependency that is DONE from an earlier run and was not
+                # executed in this one has published nothing in this run)
                 viol.append(('update-not-visible', 'update-not-visible',
                              {'task': specs[i]['name'], 'dep': specs[j]['name'],
                               'missing': miss[:6],
@@ -574,7 +576,18 @@ def oracle_c02(scn, res):
     viol = []
     specs = scn['tasks']
     if not terminated_normally(res):
-        return viol         # C03's business
+        # termination itself is C03's business; what C02 states is that
+        # every task ends in a final state, executed once or skipped
+        kind = res.outcome[0] if res.outcome else 'none'
+        if kind in ('deadlock', 'steplimit') and not res.main_done:
+            stuck = [spec['name'] for i, spec in enumerate(specs)
+                     if res.statuses.get(i) not in FINAL]
+            if stuck:
+                viol.append(('not-final', 'tasks-never-reach-a-final-state',
+                             {'run': kind, 'tasks': stuck[:6],
+                              'statuses': [res.statuses.get(i)
+                                           for i in range(len(specs))]}))
+        return viol
     if res.main_exc is not None:
         viol.append(('schedule-raised',
                      'schedule-raised:%s' % type(res.main_exc).__name__,
